@@ -270,3 +270,17 @@ package unionstore
 //@   prop C16
 //@   modifies tikverr.ErrKeyExist.Value
 //@   ensures err != nil ==> result != nil
+
+// ---- key flags of a write buffer as versioned abstract state (assumed of every MemBuffer; C06) ---------------------------
+// lockedIn(v, k): in buffer state number v the key k carries the "locked" flag. UpdateFlags moves the buffer to a new
+// state in which k is flagged if SetKeyLocked is the first of at most five operations and DelKeyLocked is not among the others, and
+// every other key is as before.
+//@ ghost field MemBuffer.fver int
+//@ spec func lockedIn(v int, k []byte) bool
+//@ func (MemBuffer) UpdateFlags
+//@   trusted
+//@   bytes: key
+//@   modifies MemBuffer.fver of recv
+//@   ensures 1 <= len(arg1) && len(arg1) <= 5 && arg1[0] == kv.SetKeyLocked && (len(arg1) < 2 || arg1[1] != kv.DelKeyLocked) && (len(arg1) < 3 || arg1[2] != kv.DelKeyLocked) &&
+//@       (len(arg1) < 4 || arg1[3] != kv.DelKeyLocked) && (len(arg1) < 5 || arg1[4] != kv.DelKeyLocked) ==> lockedIn(recv.fver, arg0)
+//@   ensures forall k2 []byte :: k2 != arg0 ==> lockedIn(recv.fver, k2) == lockedIn(old(recv.fver), k2)
